@@ -62,6 +62,7 @@ REV=[
  ("format edits left a whitespace-only separator line in place",["C19"],"R-CONST/gap"),
  ("a method without a response block crashed the OpenAPI export",["C16"],"R-PANIC/P4o"),
  ("a failed build left unlinked refs in the schema cache",["C18"],"R-ERR/rollback"),
+ ("deeply nested array values exhausted the stack",["C11","C07"],"R-TERM/T-depth"),
 ]
 n=0
 for sub,props,expect in REV:
